@@ -1,16 +1,17 @@
 ------------------------------ MODULE MC_Auth ------------------------------
-(* Exhaustive configuration of Auth.tla: two connections, two keys, every payload of the class grammar
+(* Exhaustive configuration of Auth.tla: two connections, three keys (one with every role revoked), every payload of the class grammar
    (2 signatures x 2 kinds x 7 ages x relay-tag sequences x challenge-tag sequences), sequences of attempts and probes. *)
 EXTENDS Integers, Sequences, FiniteSets, TLC
 VARIABLES token, last
 RelaySeqs == {<<>>, <<"exact">>, <<"substring">>, <<"superstring">>, <<"foreign">>, <<"exact", "foreign">>, <<"foreign", "exact">>}
 ChalSeqs == {<<>>, <<"c1">>, <<"c2">>, <<"none">>, <<"c1", "none">>, <<"c2", "c1">>}
-Payloads == [signer : {"A", "B"}, sig : {"ok", "bad"}, kind : {22242, 1}, age : {-601, -600, -599, 0, 599, 600, 601},
+Payloads == [signer : {"A", "B", "C"}, sig : {"ok", "bad"}, kind : {22242, 1}, age : {-601, -600, -599, 0, 599, 600, 601},
              relays : RelaySeqs, chals : ChalSeqs]
-INSTANCE Auth WITH Conns <- {"c1", "c2"}, Keys <- {"A", "B"}, RolesOf <- [A |-> {"w"}, B |-> {"r"}], DefaultRoles <- {"a"},
+INSTANCE Auth WITH Conns <- {"c1", "c2"}, Keys <- {"A", "B", "C"}, RolesOf <- [A |-> {"w"}, B |-> {"r"}, C |-> {}], DefaultRoles <- {"a"},
                    ActionRoles <- [save |-> {"w"}, query |-> {"r", "w"}]
 Next == \/ \E c \in {"c1", "c2"}, p \in Payloads, ok \in BOOLEAN : Auth(c, p, ok)
         \/ \E c \in {"c1", "c2"}, act \in {"save", "query"}, al \in BOOLEAN : Probe(c, act, al)
+        \/ \E c \in {"c1", "c2"} : Close(c)
 Spec == Init /\ [][Next]_vars
 View == token
 =============================================================================
